@@ -431,7 +431,7 @@ def stream_scenario(rng):
     without provide scope) through the same streams; the state and every provider's inbox dumped after each"""
     L = [[PERM, 0] + E.s(ALL_SCOPE), [PERM, 0] + E.s(ALL_SCOPE), [PERM, 0] + E.s("actuate provide:Vehicle.S.Act0 read"),
          [PERM, 0] + E.s("read")]
-    n = rng.randrange(4, 8)
+    n = rng.randrange(5, 9)
     names = ["Vehicle.S.Act%d" % i for i in range(n)]
     for i in range(n):
         L.append([ADD, 0] + E.s(names[i]) + [rng.choice([4, 4, 1, 10, 16]), rng.randrange(3), 2, 0, 0, 0])
@@ -450,9 +450,11 @@ def stream_scenario(rng):
 
     ids = list(range(n))
     rng.shuffle(ids)
-    k = rng.randrange(1, n - 1)
-    claims = [(1, ids[:k]), (2, ids[k:n - 1])]
-    free = ids[n - 1:]
+    k = rng.randrange(1, n - 2)
+    claims = [(1, ids[:k]), (2, ids[k:n - 2])]
+    free = ids[n - 2:]
+    # principal 4 may actuate ONE of the two free actuators only
+    L.insert(4, [PERM, 0] + E.s("read provide actuate:%s" % names[free[0]]))
     handles = {}            # handle -> (principal, ids)
     next_h = 0
     for p, mine in claims:
@@ -474,6 +476,19 @@ def stream_scenario(rng):
             L.append([SPROV, 1, 2] + ident(free[0]) + ident(claims[0][1][0]))
         else:
             L.append([SPROV, 3, 1] + ident(free[0]))
+    if rng.random() < 0.6:
+        # a claim of both free actuators by a token that covers only one of them (named first or last): refused as a
+        # whole - the covered actuator stays unclaimed, actuating it finds no provider
+        order = [free[0], free[1]] if rng.random() < 0.6 else [free[1], free[0]]
+        L.append([SPROV, 4, 2] + ident(order[0]) + ident(order[1]))
+        L.append([DUMP])
+        L.append([ACTUATE, 0, free[0]] + val(free[0]))
+        L.append([DUMP])
+        # ... and it can be claimed by somebody entitled to it
+        L.append([SPROV, 1, 1] + ident(free[0]))
+        handles[next_h] = (1, [free[0]])
+        next_h += 1
+        free = free[1:]
     L.append([DUMP])
     owned = [i for _, m in claims for i in m]
     for _ in range(rng.randrange(6, 16)):
@@ -1942,9 +1957,12 @@ def monitor(lines, out, props):
                   if known and known[0] == i and i in last[0]:
                       rereg.append((i, last[0][i], d["p"]))
                   if not known:
-                      if next_id is not None and i != next_id:
+                      # after a registration request whose outcome the reply does not spell out (sdv RegisterDatapoints
+                      # answered with an error: the entries before the offending one stay registered) a path that looks
+                      # new may carry an id that request handed out
+                      if next_id is not None and i != next_id and not (resynced and i < next_id):
                           fails.append("C16-ids: new signal got id %d, expected %d (refusals must not consume ids)" % (i, next_id))
-                      next_id = i + 1
+                      next_id = i + 1 if next_id is None or i >= next_id else next_id
                       paths[i] = d["path"]
                       byname[d["path"]] = i
                       meta[i] = dict(d, fuzzy=True) if resynced else d
@@ -2085,6 +2103,11 @@ def monitor(lines, out, props):
           elif name == "PROVIDE":
               if o[0] == [1, 8]:
                   holders = [x for x in owners if set(x[1]) & set(d["ids"])]
+                  if not holders and not resynced:
+                      fails.append("C04-denied-effect: claim of %s refused as already existing although no accepted claim ever "
+                                   "named any of them: a refused claim has left something in the provider registry" % d["ids"])
+                      fails.append("C10-refused: claim of %s refused as already existing although no provider is registered "
+                                   "for any of them (a refused or unauthorised claim registers nothing)" % d["ids"])
                   if holders and all(x[3] is False for x in holders):
                       fails.append("C10-release: claim of %s refused as already existing although every earlier owner "
                                    "was released by housekeeping" % d["ids"])
@@ -2207,6 +2230,13 @@ def _judge_actuation(pend, before, after, owners, paths, meta, P, ticked, down=(
     got = sorted((i, repr(v)) for h, (i, v) in delivered)
     if want != got:
         fails.append("C09-exactly-once: %s succeeded, requested %s, forwarded %s" % (d["name"], want[:4], got[:4]))
+    for i, _v in changes:
+        own = [x for x in owners if x[3] is not False and i in x[1]]
+        if own and all(x[0] in down or (0 <= x[2] < len(P.scopes) and P.scopes[x[2]][1] and ticked) for x in own):
+            fails.append("C10-lost: %s of id %d succeeded although its provider %d is %s" % (
+                d["name"], i, own[0][0], "disconnected" if own[0][0] in down else "past its token's expiry"))
+        if not own:
+            fails.append("C10-lost: %s of id %d succeeded although no provider is registered for it" % (d["name"], i))
     for h, (i, v) in delivered:
         own = [x for x in owners if x[0] == h]
         if not own or i not in own[0][1]:
